@@ -45,6 +45,14 @@ def get_ctx() -> Ctx:
 
 def _call(args):
     func, item = args
+    if os.environ.get("SA_TIMING"):
+        import sys
+        import time
+        t0 = time.time()
+        try:
+            return ("ok", func(item))
+        finally:
+            print(f"TIMING {time.time() - t0:7.2f}s {func.__name__} {item!r}"[:200], file=sys.stderr, flush=True)
     try:
         return ("ok", func(item))
     except AnalysisError as e:
